@@ -828,11 +828,72 @@ def check_lattice(case, res, vs):
     return vs, True
 
 
+# the cursor of a prepared statement as a state machine: every sequence of bind / execute / fetch against a three-row table
+def cursor_model(seq):
+    param, status, rows, out = 1, "new", [], []
+    for o in seq:
+        if o in ("B1", "B2", "B4"):
+            param, status, rows = int(o[1]), "new", []
+            out.append("BTRUE")
+        elif o == "E":
+            rows = [a for a in (1, 2, 3) if a >= param]
+            status = "row" if rows else "done"
+            out.append("ETRUE")
+        else:
+            if status == "row":
+                out.append("FTRUE%d" % rows[0])
+                rows = rows[1:]
+                if not rows:
+                    status = "done"
+            else:
+                out.append("FFALSE0")
+    return "".join(x + "\n" for x in out)
+
+
+def cursor_gen(tier):
+    def gen():
+        n = 0
+        alphabet = ["E", "F", "B1", "B2", "B4"]
+        text = {"E": 'print "E" d.execute();', "F": 'rv = tup(0); print "F" d.fetch(rv) rv@1;', "B1": 'print "B" d.bind(tup(1));', "B2": 'print "B" d.bind(tup(2));',
+                "B4": 'print "B" d.bind(tup(4));'}
+        setup = ('import sqlite3; d = sqlite3(":memory:"); zz = d.exec("create table t(a)"); zz = d.exec("insert into t values(1)"); zz = d.exec("insert into t values(3)"); '
+                 'zz = d.exec("insert into t values(2)"); zz = d.prepare("select a from t where a >= ? order by a"); zz = d.bind(tup(1)); rv = tup(0);')
+        for l in range(1, (7 if tier == "thorough" else 5) + 1):
+            for seq in itertools.product(alphabet, repeat=l):
+                if l > 5 and seq.count("B4") + seq.count("B2") > 1:
+                    continue
+                prog = " ".join(text[o] for o in seq)
+                ops = ["isolate", op_ctx(0, True), op_run(setup), op_run(prog), op_out(0)]
+                yield Case("cu%d" % n, ops, {"kind": "cursor", "seq": list(seq)})
+                n += 1
+    return gen
+
+
+def check_cursor(case, res, vs):
+    m = case.meta
+    st = res["steps"]
+    out = unhex(st[4].get("out", "")).decode("latin-1")
+    want = cursor_model(m["seq"])
+    if st[2].get("r") != "ok":
+        vs.append(Violation("harness:cursor-setup", "%s" % st[2], case))
+    elif st[3].get("r") != "ok" or out != want:
+        k = 0
+        a, b = out.split("\n"), want.split("\n")
+        while k < min(len(a), len(b)) and a[k] == b[k]:
+            k += 1
+        prev = m["seq"][k - 1] if k > 0 else "start"
+        vs.append(Violation("sqlite3:cursor:%s-after-%s" % (m["seq"][k] if k < len(m["seq"]) else "end", prev),
+                            "prepared statement over rows 1,2,3: the sequence %s gives %s %r, expected %r" % (" ".join(m["seq"]), st[3].get("r"), out, want), case))
+    return vs, True
+
+
 def check(case, res):
     vs = generic_safety(case, res)
     if res.get("st") != "done":
         return vs, True
     k = case.meta["kind"]
+    if k == "cursor":
+        return check_cursor(case, res, vs)
     if k == "csv":
         return check_csv(case, res, vs)
     if k == "utf8":
@@ -851,7 +912,7 @@ def run(tier):
     deadline = t0 + (3000 if tier == "thorough" else 420)
     build.ensure("asan", bins=("vdrv",))
     total = Result()
-    for name, g in (("csv", csv_gen(tier)), ("utf8", utf8_gen(tier)), ("file", file_gen(tier)), ("bigfile", bigfile_gen(tier)), ("sqlite3", sql_gen(tier)), ("lattice", lattice_gen(tier))):
+    for name, g in (("csv", csv_gen(tier)), ("utf8", utf8_gen(tier)), ("file", file_gen(tier)), ("bigfile", bigfile_gen(tier)), ("sqlite3", sql_gen(tier)), ("lattice", lattice_gen(tier)), ("cursor", cursor_gen(tier))):
         total.merge(explore("%s-%s-%s" % (PROP, tier, name), g, check, chunk=60, deadline=deadline))
     rule = ("csv: all rows of 1 field (length <=%d), 2 fields, 3 short fields over {a, space, separator, quote, LF, CR} x 4 formats, one-shot and line by line; "
             "utf8: all byte strings of length <=%d over 16 class bytes x positions; file: all sequences of <=%d operations x 6 open modes against a twin; "
